@@ -571,6 +571,8 @@ func (g *G) stackItem() stackitem.Item {
 }
 
 func (g *G) notification() *state.NotificationEvent {
+	defer func(big bool) { g.big = big }(g.big)
+	g.big = false // keep the state within the serialisation size limit
 	b := 1 + g.r.Intn(12)
 	n := g.r.Intn(4)
 	arr := make([]stackitem.Item, 0, n)
@@ -581,6 +583,8 @@ func (g *G) notification() *state.NotificationEvent {
 }
 
 func (g *G) aer() *state.AppExecResult {
+	defer func(big bool) { g.big = big }(g.big)
+	g.big = false // keep the items within the serialisation size limit
 	a := &state.AppExecResult{Container: g.u256()}
 	a.Trigger = []trigger.Type{trigger.OnPersist, trigger.PostPersist, trigger.Application, trigger.Verification}[g.r.Intn(4)]
 	a.VMState = []vmstate.State{vmstate.Halt, vmstate.Fault}[g.r.Intn(2)]
@@ -590,6 +594,13 @@ func (g *G) aer() *state.AppExecResult {
 	for i := range a.Stack {
 		b := 1 + g.r.Intn(10)
 		a.Stack[i] = g.item(3, &b)
+		if noTrunc {
+			if _, err := stackitem.Serialize(a.Stack[i]); err != nil {
+				var s sb
+				showItem(&s, a.Stack[i], 0)
+				println("aer stack item unserializable:", err.Error(), s.String())
+			}
+		}
 	}
 	ne := g.r.Intn(3)
 	a.Events = make([]state.NotificationEvent, ne)
